@@ -1,8 +1,10 @@
-\* C24 leg A thorough (2): 6 requests, max 1..3, all interleavings, safety only (610 k states); emits no cases
+\* C24 leg A thorough (2): 5 requests (each within or over a request limit), max 1..3, all interleavings, safety only ; emits no cases
 SPECIFICATION Spec
-CONSTANTS NReq = 6
+CONSTANTS NReq = 5
           MaxSet = {1, 2, 3}
           DoneOnFailedStart = FALSE
+          WithLimits = TRUE
+          CaseLenReject = 1
           CaseLen = 1
           CaseReq = 1
           CaseMaxSet = {1}
